@@ -5,6 +5,7 @@
     repaired loop is [Parse.skip_loop], structurally recursive. *)
 From Coq Require Import List NArith Bool.
 From Verif Require Import Lib.Utf8 Jsonx.Lex Jsonx.Tok Jsonx.Parse.
+From Coq Require Import Lia Arith.
 Import ListNotations.
 
 Fixpoint legacy_skip_loop (fuel : nat) (c : ptok) (r : list ptok) (fin : list ecode)
@@ -37,3 +38,50 @@ Proof.
   - cbn [forallb] in Hr. apply andb_true_iff in Hr as [Ht Hr'].
     apply IH; [now apply negb_true_iff in Ht|exact Hr'].
 Qed.
+
+
+(** ** An [ErrorList.Add] that checks the cap before setting the jail flag
+
+    [p_add_capfirst] is Add with the early return of a full list in front of
+    [inJail = true]: a full list drops the error and the parser does not
+    enter error state.  [series_badname_loop] is the path of parseSeries for
+    an entry that does not start with a type name (parseTypeName reports the
+    error, [SkipErrStmt], [continue]) with that Add.  With a full error list
+    and a current token that is neither a type name nor EOF it never returns:
+    SkipErrStmt is a no-op outside error state, so the same token is looked at
+    again.  This is why the termination theorems need "every Add jails"
+    (Jsonx/ParseProofs.v [recovery_after_add_progress]), and why
+    Jsonx/ConstsGen.v [gen_add_sets_jail_before_cap_return] checks the
+    statement order of the current source. *)
+
+Definition p_add_capfirst (e : ecode) (st : pstate) : pstate :=
+  if Nat.ltb (length (perrs st)) max_errs then p_add e st else st.
+
+Fixpoint series_badname_loop (fuel : nat) (st : pstate) : option pstate :=
+  match fuel with
+  | O => None
+  | S f =>
+      if p_see TEOF st then Some st
+      else
+        match pty (cur st) with
+        | TString | TIdent => Some st          (* a type name: leaves this path *)
+        | _ => series_badname_loop f (snd (skip_err_stmt (p_add_capfirst EExpectTypeName st)))
+        end
+  end.
+
+Theorem capfirst_add_spins : forall fuel st,
+  max_errs <= length (perrs st) -> jail st = false ->
+  p_see TEOF st = false -> pty (cur st) <> TString -> pty (cur st) <> TIdent ->
+  series_badname_loop fuel st = None.
+Proof.
+  induction fuel as [|f IH]; intros st Hfull Hj He Hs Hi; [reflexivity|].
+  cbn [series_badname_loop]. rewrite He.
+  assert (Hsame : snd (skip_err_stmt (p_add_capfirst EExpectTypeName st)) = st).
+  { unfold p_add_capfirst. destruct (Nat.ltb_spec (length (perrs st)) max_errs); [lia|].
+    unfold skip_err_stmt. now rewrite Hj. }
+  rewrite Hsame.
+  destruct (pty (cur st)) eqn:E; try (apply IH; auto; rewrite E; discriminate); contradiction.
+Qed.
+
+(** With the real Add the same path returns (any fuel above the number of
+    tokens): shown for all states by [ParseProofs.parse_series_ok]. *)
